@@ -135,8 +135,13 @@ def grid_case(ctx, r):
                           f"combined{label}: cumulative {cum(got['combined']).tolist()[:5]} != pointwise "
                           f"min of dense/sparse/intermediate {want.tolist()[:5]}", r)
     else:
-        if not _eq(cum(got["combined"]), cum(got["dense"])):
-            ctx.violation(sub, "combined-p1", f"combined{label} != dense for p=1", r)
+        # p = 1: the intermediate family is undefined (it needs p >= 2), so "the pointwise minimum of the dense,
+        # sparse and intermediate ones" does not say which of the remaining readings is meant.  The library returns
+        # the dense penalty (MVCAPA on one column is CAPA); the minimum of the two defined families is accepted too.
+        alt = np.minimum(cum(got["dense"]), cum(got["sparse"]))
+        if not (_eq(cum(got["combined"]), cum(got["dense"])) or _eq(cum(got["combined"]), alt, rel=1e-10)):
+            ctx.violation(sub, "combined-p1", f"combined{label} is neither the dense penalty nor the pointwise "
+                          f"minimum of the dense and the sparse one for p=1", r)
     # factory
     for name, f in fams.items():
         if mv.capa_penalty_factory(name) is not getattr(mv, f"{name}_mvcapa_penalty"):
@@ -306,14 +311,23 @@ def det_case(ctx, r):
 
             du = build(spec).fit(pd.DataFrame(X))
             n2 = X2.shape[0]
+            total = n
+            # chunks continue the stored series; some re-send its last one or two samples (a sliding window that
+            # shares its boundary): rows with a label already stored replace them, so the training shape is the
+            # number of distinct labels
+            overlap = [0, 0, 1, 2][(n + 3 * n2 + p) % 4]
             for j in (1, 2):
-                du.update(pd.DataFrame(X2, index=pd.RangeIndex(n + (j - 1) * n2, n + j * n2)))
-                _, f_u, pub_u, _ = want_default(n + j * n2)
+                start = total - min(overlap, n2 - 1)
+                du.update(pd.DataFrame(X2, index=pd.RangeIndex(start, start + n2)))
+                total = start + n2
+                _, f_u, pub_u, _ = want_default(total)
                 ctx.stat("update_formula_checks")
+                if overlap:
+                    ctx.stat("update_chunks_overlapping_the_stored_tail")
                 if not (_eq(getattr(du, attr), scale * f_u) and _eq(getattr(du, attr), scale * pub_u)):
-                    ctx.violation(sub, "formula-after-update", f"{label}: after update #{j} with {n2} new rows "
-                                  f"{attr}={getattr(du, attr)} != scale x default for the {n + j * n2} training "
-                                  f"rows = {scale * f_u}", r)
+                    ctx.violation(sub, "formula-after-update", f"{label}: after update #{j} with {n2} rows labelled "
+                                  f"{start}..{start + n2 - 1} {attr}={getattr(du, attr)} != scale x default for the "
+                                  f"{total} training rows = {scale * f_u}", r)
                     break
         except Exception as ex:
             ctx.violation(sub, "update-exception", f"{label}: update raised {type(ex).__name__}: {ex}", r)
